@@ -70,6 +70,7 @@ Expected == << [stages |-> << [words |-> << B(<<"v","p","a">>), NbWord(nb) >> \o
 PassOK == \A e \in {"script", "function", "source"} : Meaning(Pre(e, Line, Args, Mode)) = Expected
 Str(s) == FoldLeft(LAMBDA a, c : a \o c, "", s)
 Case == [line |-> Str(Line), args |-> <<Str(v1), Str(v2)>>, ctx |-> ctx, ref |-> Str(ref),
+         spliced |-> Str(Splice(Line, 1, "", Args)),      \* what the repaired pass must hand to the list runner (conformance)
          argv |-> [i \in 1..Len(Expected[1].stages[1].words) |-> Str(Untag(Expected[1].stages[1].words[i]))]]
 Emit == PrintT(<<"REPLAY", ToJson(Case)>>)
 =============================================================================
